@@ -35,7 +35,43 @@ def prompt(tier):
     return "Prompt", n, drift
 
 
-MODULES = [prompt]
+def plan(tier):
+    """spec/Plan.tla (the whole front end composed: splitter, tokenizer, environment words, background, stages, input and output
+    redirections) - every short line over the alphabet of special characters"""
+    drift = []
+    n = 0
+    for cfg in (("MCPlan_4",) if tier == "quick" else ("MCPlan_5", "MCPlan_r6")):
+        cases = []
+        r = run_tlc("MCPlan", cfg, on_replay=cases.append, keep_replays=False, timeout=6000, xmx="24g")
+        if r.violation:
+            raise ToolError("the composed front end violates a reference theorem of Plan.tla (%s):\n%s" % (cfg, r.violation[:2500]))
+        res = inproc_map("plan", [{"id": i, "line": c["s"]} for i, c in enumerate(cases)], timeout=30)
+        for c, o in zip(cases, res):
+            n += 1
+            if "plans" not in o:
+                drift.append((c["s"], "a plan", {k: o[k] for k in o if k != "id"}))
+                continue
+            want = {"segs": c["segs"], "plans": []}
+            for pl in c["plans"]:
+                if not pl["ok"]:
+                    want["plans"].append({"ok": False, "err": pl["err"]})
+                else:
+                    envs = {}
+                    for k, v in pl["envs"]:
+                        envs[k] = v
+                    want["plans"].append({"ok": True, "background": pl["background"], "envs": sorted([k, v] for k, v in envs.items()),
+                                          "commands": [{"tokens": [list(t) for t in cm["tokens"]], "redirects_to": [list(x) for x in cm["redirs"]],
+                                                        "redirect_from": list(cm["from"]) if cm["from"] else None} for cm in pl["commands"]]})
+            got = {"segs": o["segs"], "plans": [({"ok": False, "err": pl["err"]} if not pl["ok"] else
+                                                 {"ok": True, "background": pl["background"], "envs": sorted(list(e) for e in pl["envs"]),
+                                                  "commands": pl["commands"]}) for pl in o["plans"]]}
+            if got != want:
+                drift.append((c["s"], want, got))
+        log("[extras] Plan %s: %d lines, %d distinct states" % (cfg, len(cases), r.distinct))
+    return "Plan", n, drift
+
+
+MODULES = [prompt, plan]
 
 
 def main():
